@@ -14,10 +14,10 @@ go build ./... >> $LOG 2>&1 && echo "build: ok" >> $LOG || { echo "build: FAILED
 (cd $OUT/demo && find . -type f) | while read f; do mkdir -p $WT/$(dirname $f); cp $OUT/demo/$f $WT/$f; done
 echo "== demo WITH change: go test -run '$RUN' $PKG" >> $LOG
 go test -vet=off -count=1 -run "$RUN" $PKG >> $LOG 2>&1; WITH=$?
-git stash -q -- $(git diff --name-only) 2>/dev/null || git apply -R $OUT/patch.diff
+git apply -R $OUT/patch.diff
 echo "== demo WITHOUT change" >> $LOG
 go test -vet=off -count=1 -run "$RUN" $PKG >> $LOG 2>&1; WITHOUT=$?
-git stash pop -q 2>/dev/null || git apply $OUT/patch.diff
+git apply $OUT/patch.diff
 (cd $OUT/demo && find . -type f) | while read f; do rm -f $WT/$f; done
 echo "demo exit with change: $WITH, without: $WITHOUT" | tee -a $LOG
 if [ -z "$SKIP_SUITE" ]; then /verif/tools/run_suite.sh $WT /tmp/suite_seed_$ID.json >> $LOG 2>&1; tail -3 $LOG; fi
